@@ -72,6 +72,9 @@ func safely[C any](check func(C) *evid.Fail, c C) (f *evid.Fail) {
 // (2) replays the curated regression cases, (3) runs the generated search.
 func runProp[C any](t *testing.T, rec *evid.Recorder, kind string, checks int, gen func(*rapid.T) C, check func(C) *evid.Fail) {
 	t.Helper()
+	if only := os.Getenv("VERIF_ONLY"); only != "" && only != kind { // debugging aid: run one sub-check
+		return
+	}
 	one := func(path string) {
 		var c C
 		if _, err := evid.LoadReplay(path, &c); err != nil {
@@ -131,6 +134,9 @@ func runProp[C any](t *testing.T, rec *evid.Recorder, kind string, checks int, g
 // runEnum runs the oracle over an enumerated (non-random) list of cases.
 func runEnum[C any](t *testing.T, rec *evid.Recorder, kind string, cases func(yield func(C) bool), check func(C) *evid.Fail) {
 	t.Helper()
+	if only := os.Getenv("VERIF_ONLY"); only != "" && only != kind {
+		return
+	}
 	if rp := evid.ReplayFile(); rp != "" {
 		if evid.ReplayKind(rp) == kind {
 			var c C
